@@ -283,14 +283,19 @@ def run_case(case):
         extra['R'] = U.render_ann(case['ret'])
     if case.get('prop_get_ret') is not None:
         extra['RG'] = U.render_ann(case['prop_get_ret'])
+    reified = {}
     if case['body'][0] == 'ret':
         r.result_obj = U.render_val(case['body'][1])
+        reified['body'] = ['ret', U.reify_val(r.result_obj, case['body'][1])]
     else:
         r.exc_obj = excs.cls_of(case['body'][1])('scripted')
     if case['gen']:
         r.script_objs = [U.render_val(s[1]) if s[0] in ('yield', 'ret') else excs.cls_of(s[1])('scripted') for s in case['script']]
         ot = case.get('on_throw', 'propagate')
         r.throw_obj = U.render_val(ot[1]) if ot != 'propagate' else None
+        reified['script'] = [[s[0], U.reify_val(o, s[1])] if s[0] in ('yield', 'ret') else s for s, o in zip(case['script'], r.script_objs)]
+        reified['on_throw'] = ot if ot == 'propagate' else [ot[0], U.reify_val(r.throw_obj, ot[1])]
+        r.op_reified = {}
     extra['_pv_body'] = r.body
     extra['_pv_gen'] = r.gen
     import pedantic as P
@@ -333,10 +338,13 @@ def run_case(case):
         except Unrepresentable as ex:
             return {'skip': str(ex)}
     res['fn'] = fnr
+    res['reified'] = reified
     # the objects of the call
     args = []
+    reified['args'], reified['kwargs'] = [], []
     for i, v in enumerate(case['args']):
         o = U.render_val(v)
+        reified['args'].append(U.reify_val(o, v))
         args.append(o)
         r.objs[(2, i)] = o
         if v[0] == 'iter':
@@ -346,6 +354,7 @@ def run_case(case):
         if kname == 0 and case.get('self_kw'):
             continue
         o = U.render_val(v)
+        reified['kwargs'].append([kname, U.reify_val(o, v)])
         kwargs[N.pname(kname)] = o
         r.objs[(3, kname)] = o
         if v[0] == 'iter':
@@ -404,6 +413,7 @@ def run_case(case):
         res['same_object'] = (case['body'][0] == 'raise' and not case['gen'] and ex is r.exc_obj)
     res['journal'] = r.journal
     if op_results is not None:
+        reified['ops'] = [['send', r.op_reified[k]] if (o[0] == 'send' and k in r.op_reified) else o for k, o in enumerate(case['ops'][:40])]
         res['ops'] = op_results
         res['resumes'] = r.sent if hasattr(r, 'sent') else []
     return res
@@ -422,6 +432,7 @@ def run_ops(r, w, case):
                 v = next(w)
             elif op[0] == 'send':
                 o = U.render_val(op[1])
+                r.op_reified[len(r.op_objs)] = U.reify_val(o, op[1])
                 r.op_objs.append(o)
                 v = w.send(o)
             elif op[0] == 'throw':
